@@ -191,16 +191,22 @@ func run(ctx *core.Ctx) error {
 
 	v := newVerdicts()
 
-	// 2. P-C + P-B on the table
-	if err := runTable(ctx, v); err != nil {
+	// 2. P-C + P-B on the table; 3. P-B on seeded large maps and hand-made files (concurrently)
+	var randErr error
+	var rWG sync.WaitGroup
+	rWG.Add(1)
+	go func() {
+		defer rWG.Done()
+		randErr = runRandom(ctx, v)
+	}()
+	tabErr := runTable(ctx, v)
+	rWG.Wait()
+	if tabErr != nil || randErr != nil {
 		mcWG.Wait()
-		return err
-	}
-
-	// 3. P-B on seeded large maps and hand-made files
-	if err := runRandom(ctx, v); err != nil {
-		mcWG.Wait()
-		return err
+		if tabErr != nil {
+			return tabErr
+		}
+		return randErr
 	}
 
 	mcWG.Wait()
